@@ -281,3 +281,37 @@ def run(ctx):
         and "np.arange(min_factor, max_factor + 1) * width" in tg
     ctx.check(ok, "C20.e", "TimeTickHandler.get_time_ticks", "first tick = ceil(min/unit) via floor division + remainder, last = floor(max/unit)",
               "the tick range is not ceil(min/unit) .. floor(max/unit) computed with floor division (truncation towards zero drops ticks for negative ranges)", gt.where)
+
+    # the tick handler is given the axes' x-range: helpers that READ the limits run after the helper that SETS them
+    mp = m.module("plotting.matplotlib")
+
+    def _touches(fi, attrs):
+        return any(isinstance(c.func, ast.Attribute) and c.func.attr in attrs for c in calls_in(fi.node))
+    setters = {n for n, f in mp.functions.items() if n.startswith("_") and _touches(f, ("set_xlim", "set_ylim"))}
+    readers = {n for n, f in mp.functions.items() if n.startswith("_") and _touches(f, ("get_xlim", "get_ylim"))}
+    if not setters or not readers:
+        raise AnalysisError(f"matplotlib backend: limit setters {setters} / readers {readers} not found")
+    n_fun = 0
+    for name, fi in mp.functions.items():
+        if name.startswith("_"):
+            continue
+        names = [U(c.func) for c in calls_in(fi.node)]
+        if not (set(names) & setters and set(names) & readers):
+            continue
+        n_fun += 1
+        ctx.saw(fi)
+        bad = []
+        for path in function_paths(fi.node):
+            seen_set = False
+            for s_ in path:
+                if s_[0] != "stmt":
+                    continue
+                for c in calls_in(s_[1]):
+                    if U(c.func) in setters:
+                        seen_set = True
+                    if U(c.func) in readers and not seen_set:
+                        bad.append(f"`{U(c.func)}` (reads the axis range) runs before `{sorted(setters)[0]}` has set it")
+        ctx.check(not bad, "C20.e", f"{name}:limits-before-ticks", f"{sorted(setters)} precede {sorted(readers)} on every path",
+                  "; ".join(sorted(set(bad))[:2]) + " - a tick handler sees the default range of a fresh axes, not the histogram's", fi.where)
+    ctx.check(n_fun >= 5, "C20.e", "limits-before-ticks:functions", f"{n_fun} plot functions use both helpers",
+              f"only {n_fun} plot functions call both a limit setter and a limit reader (anchor moved?)", mp.relpath)
